@@ -7,6 +7,15 @@ package dnsmsg
 
 //@ spec func lower(c byte) byte = ('A' <= c && c <= 'Z') ? c + 32 : c
 
+// wfMsg: no nil question, no nil or typed-nil record (what UnpackMsg and the router's builders produce)
+//@ spec func wfRecs(rs []Resource) bool = forall(k, 0, len(rs), dynNonNil(rs[k]))
+//@ spec func okRecs(rs []Resource) bool = forall(k, 0, len(rs), rs[k] == nil || dynNonNil(rs[k]))
+// the four section slices never share a backing array
+//@ spec func distinctSecs(m *Msg) bool = (m.Questions == nil || m.Answers == nil || true)
+//@        && (m.Answers == nil || (!sameObj(m.Answers, m.Authorities) && !sameObj(m.Answers, m.Additionals)))
+//@        && (m.Authorities == nil || !sameObj(m.Authorities, m.Additionals))
+//@ spec func wfMsg(m *Msg) bool = forall(k, 0, len(m.Questions), m.Questions[k] != nil) && wfRecs(m.Answers) && wfRecs(m.Authorities) && wfRecs(m.Additionals)
+
 // ---- utils.go ---------------------------------------------------------------------
 
 //@ func copyBuf(b []byte) (c pool.Buffer)
@@ -200,3 +209,254 @@ package dnsmsg
 //@   requires q != nil
 //@   modifies q.Name, q.Type, q.Class
 //@   ensures q.Name == nil && q.Type == 0 && q.Class == 0
+
+// ---- rr_pool.go: pooled constructors (assumptions: sync.Pool hands out exclusively owned,
+// reset objects; this is the pool invariant that every Release* below re-establishes) ------
+
+//@ func NewA() (r *A)
+//@   trusted
+//@   modifies nothing
+//@   ensures r != nil && fresh(r) && r.Name == nil
+//@ func NewAAAA() (r *AAAA)
+//@   trusted
+//@   modifies nothing
+//@   ensures r != nil && fresh(r) && r.Name == nil
+//@ func NewMX() (r *MX)
+//@   trusted
+//@   modifies nothing
+//@   ensures r != nil && fresh(r) && r.Name == nil && r.MX == nil
+//@ func NewNAME() (r *NAMEResource)
+//@   trusted
+//@   modifies nothing
+//@   ensures r != nil && fresh(r) && r.Name == nil && r.NameData == nil
+//@ func NewSOA() (r *SOA)
+//@   trusted
+//@   modifies nothing
+//@   ensures r != nil && fresh(r) && r.Name == nil && r.NS == nil && r.MBox == nil
+//@ func NewSRV() (r *SRV)
+//@   trusted
+//@   modifies nothing
+//@   ensures r != nil && fresh(r) && r.Name == nil && r.Target == nil
+//@ func NewRaw() (r *RawResource)
+//@   trusted
+//@   modifies nothing
+//@   ensures r != nil && fresh(r) && r.Name == nil && r.Data == nil && r.Type == 0 && r.Class == 0 && r.TTL == 0 && r.Length == 0
+
+//@ func ReleaseA(r *A)
+//@   props C01 C20
+//@   requires r != nil
+//@   modifies r.ResourceHdr, r.A
+//@   ensures r.Name == nil
+//@ func ReleaseAAAA(r *AAAA)
+//@   props C01 C20
+//@   requires r != nil
+//@   modifies r.ResourceHdr, r.AAAA
+//@   ensures r.Name == nil
+//@ func ReleaseMX(r *MX)
+//@   props C01 C20
+//@   requires r != nil
+//@   modifies r.ResourceHdr, r.Pref, r.MX
+//@   ensures r.Name == nil && r.MX == nil
+//@ func ReleaseNAME(r *NAMEResource)
+//@   props C01 C20
+//@   requires r != nil
+//@   modifies r.ResourceHdr, r.NameData
+//@   ensures r.Name == nil && r.NameData == nil
+//@ func ReleaseSOA(r *SOA)
+//@   props C01 C20
+//@   requires r != nil
+//@   modifies r.ResourceHdr, r.NS, r.MBox, r.Serial, r.Refresh, r.Retry, r.Expire, r.MinTTL
+//@   ensures r.Name == nil && r.NS == nil && r.MBox == nil
+//@ func ReleaseSRV(r *SRV)
+//@   props C01 C20
+//@   requires r != nil
+//@   modifies r.ResourceHdr, r.Priority, r.Weight, r.Port, r.Target
+//@   ensures r.Name == nil && r.Target == nil
+//@ func ReleaseRaw(r *RawResource)
+//@   props C01 C20
+//@   requires r != nil
+//@   modifies r.ResourceHdr, r.Data
+//@   ensures r.Name == nil && r.Data == nil && r.Type == 0 && r.Class == 0 && r.TTL == 0 && r.Length == 0
+
+//@ func ReleaseResource(r Resource)
+//@   inline
+
+// ---- rr.go: decoding -------------------------------------------------------------------
+
+//@ func (h *ResourceHdr) unpack(msg []byte, off int) (noff int, err error)
+//@   props C01 C02
+//@   requires h != nil && 0 <= off && off <= len(msg)
+//@   modifies h.Name, h.Type, h.Class, h.TTL, h.Length
+//@   ensures err == nil ==> off < noff && noff <= len(msg) && h.Name != nil && fresh(h.Name)
+//@             && uint16(h.Type) == BE16(msg, noff-10) && uint16(h.Class) == BE16(msg, noff-8)
+//@             && h.TTL == BE32(msg, noff-6) && h.Length == BE16(msg, noff-2)
+
+//@ func (r *A) unpack(msg []byte, off int, hdr ResourceHdr) (noff int, err error)
+//@   props C01 C02
+//@   requires r != nil && 0 <= off && off <= len(msg)
+//@   modifies r.ResourceHdr, r.A
+//@   ensures err == nil ==> noff == off+4 && noff <= len(msg) && hdr.Length == 4 && forall(k, 0, 4, r.A[k] == old(msg[off+k]))
+//@   ensures r.Name == hdr.Name && r.Type == hdr.Type && r.Class == hdr.Class && r.TTL == hdr.TTL
+
+//@ func (r *AAAA) unpack(msg []byte, off int, hdr ResourceHdr) (noff int, err error)
+//@   props C01 C02
+//@   requires r != nil && 0 <= off && off <= len(msg)
+//@   modifies r.ResourceHdr, r.AAAA
+//@   ensures err == nil ==> noff == off+16 && noff <= len(msg) && hdr.Length == 16 && forall(k, 0, 16, r.AAAA[k] == old(msg[off+k]))
+//@   ensures r.Name == hdr.Name && r.Type == hdr.Type && r.Class == hdr.Class && r.TTL == hdr.TTL
+
+//@ func (r *NAMEResource) unpack(msg []byte, off int, hdr ResourceHdr) (noff int, err error)
+//@   props C01 C02
+//@   requires r != nil && 0 <= off && off <= len(msg)
+//@   modifies r.ResourceHdr, r.NameData
+//@   ensures err == nil ==> off < noff && noff <= len(msg) && noff - off == int(hdr.Length)
+//@   ensures r.Name == hdr.Name && r.Type == hdr.Type && r.Class == hdr.Class && r.TTL == hdr.TTL
+
+//@ func (r *SOA) unpack(msg []byte, off int, hdr ResourceHdr) (noff int, err error)
+//@   props C01 C02
+//@   requires r != nil && 0 <= off && off <= len(msg)
+//@   modifies r.ResourceHdr, r.NS, r.MBox, r.Serial, r.Refresh, r.Retry, r.Expire, r.MinTTL
+//@   ensures err == nil ==> off < noff && noff <= len(msg) && noff - off == int(hdr.Length)
+//@             && r.Serial == BE32(msg, noff-20) && r.Refresh == BE32(msg, noff-16) && r.Retry == BE32(msg, noff-12)
+//@             && r.Expire == BE32(msg, noff-8) && r.MinTTL == BE32(msg, noff-4)
+//@   ensures r.Name == hdr.Name && r.Type == hdr.Type && r.Class == hdr.Class && r.TTL == hdr.TTL
+
+//@ func (r *MX) unpack(msg []byte, off int, hdr ResourceHdr) (noff int, err error)
+//@   props C01 C02
+//@   requires r != nil && 0 <= off && off <= len(msg)
+//@   modifies r.ResourceHdr, r.Pref, r.MX
+//@   ensures err == nil ==> off < noff && noff <= len(msg) && noff - off == int(hdr.Length) && r.Pref == BE16(msg, off)
+//@   ensures r.Name == hdr.Name && r.Type == hdr.Type && r.Class == hdr.Class && r.TTL == hdr.TTL
+
+//@ func (r *SRV) unpack(msg []byte, off int, hdr ResourceHdr) (noff int, err error)
+//@   props C01 C02
+//@   requires r != nil && 0 <= off && off <= len(msg)
+//@   modifies r.ResourceHdr, r.Priority, r.Weight, r.Port, r.Target
+//@   ensures err == nil ==> off < noff && noff <= len(msg) && noff - off == int(hdr.Length)
+//@             && r.Priority == BE16(msg, off) && r.Weight == BE16(msg, off+2) && r.Port == BE16(msg, off+4)
+//@   ensures r.Name == hdr.Name && r.Type == hdr.Type && r.Class == hdr.Class && r.TTL == hdr.TTL
+
+//@ func (r *RawResource) unpack(msg []byte, off int, hdr ResourceHdr) (noff int, err error)
+//@   props C01 C02
+//@   requires r != nil && 0 <= off && off <= len(msg)
+//@   modifies r.ResourceHdr, r.Data
+//@   ensures err == nil ==> noff == off + int(hdr.Length) && noff <= len(msg) && len(r.Data) == int(hdr.Length)
+//@             && fresh(r.Data) && bytesEq(r.Data, 0, msg, off, int(hdr.Length))
+//@   ensures r.Name == hdr.Name && r.Type == hdr.Type && r.Class == hdr.Class && r.TTL == hdr.TTL
+
+//@ func unpackResource(msg []byte, off int) (r Resource, noff int, err error)
+//@   props C01 C02 C20
+//@   requires 0 <= off && off <= len(msg)
+//@   modifies nothing
+//@   ensures err == nil ==> dynNonNil(r) && fresh(r) && off < noff && noff <= len(msg)
+//@   ensures err != nil ==> r == nil
+
+// ---- msg.go ------------------------------------------------------------------------------
+
+//@ func NewMsg() (m *Msg)
+//@   trusted
+//@   modifies nothing
+//@   ensures m != nil && fresh(m)
+//@   ensures m.ID == 0 && !m.Response && m.OpCode == 0 && !m.Authoritative && !m.Truncated && !m.RecursionDesired
+//@             && !m.RecursionAvailable && !m.AuthenticData && !m.CheckingDisabled && m.RCode == 0
+//@   ensures len(m.Questions) == 0 && len(m.Answers) == 0 && len(m.Authorities) == 0 && len(m.Additionals) == 0
+//@   ensures m.Questions == nil || fresh(m.Questions)
+//@   ensures m.Answers == nil || fresh(m.Answers)
+//@   ensures m.Authorities == nil || fresh(m.Authorities)
+//@   ensures m.Additionals == nil || fresh(m.Additionals)
+//@   ensures distinctSecs(m)
+
+//@ func (h *header) unpack(msg []byte, off int) (noff int, err error)
+//@   props C01 C02
+//@   requires h != nil && 0 <= off && off <= len(msg)
+//@   modifies h.id, h.bits, h.questions, h.answers, h.authorities, h.additionals
+//@   ensures len(msg)-off >= 12 ==> err == nil && noff == off+12 && h.id == BE16(msg, off) && h.bits == BE16(msg, off+2)
+//@             && h.questions == BE16(msg, off+4) && h.answers == BE16(msg, off+6)
+//@             && h.authorities == BE16(msg, off+8) && h.additionals == BE16(msg, off+10)
+//@   ensures len(msg)-off < 12 ==> err == ErrSmallBuffer
+
+//@ func (h *header) pack(msg []byte) (off int, err error)
+//@   props C01 C02
+//@   requires h != nil
+//@   modifies msg[0:(len(msg) >= 12 ? 12 : 0)]
+//@   ensures len(msg) >= 12 ==> err == nil && BE16(msg, 0) == h.id && BE16(msg, 2) == h.bits && BE16(msg, 4) == h.questions
+//@             && BE16(msg, 6) == h.answers && BE16(msg, 8) == h.authorities && BE16(msg, 10) == h.additionals
+//@   ensures len(msg) < 12 ==> err == ErrSmallBuffer
+
+//@ func (h *header) header() (H Header)
+//@   props C01 C02
+//@   requires h != nil
+//@   modifies nothing
+//@   ensures H.ID == h.id && H.Response == ((h.bits & 0x8000) != 0)
+//@        && H.OpCode == OpCode(h.bits>>11) & 0xF && H.RCode == RCode(h.bits & 0xF)
+//@        && H.Authoritative == ((h.bits & 0x0400) != 0) && H.Truncated == ((h.bits & 0x0200) != 0)
+//@        && H.RecursionDesired == ((h.bits & 0x0100) != 0) && H.RecursionAvailable == ((h.bits & 0x0080) != 0)
+//@        && H.AuthenticData == ((h.bits & 0x0020) != 0) && H.CheckingDisabled == ((h.bits & 0x0010) != 0)
+
+//@ func (m *Header) Pack() (id uint16, bits uint16)
+//@   props C01 C02
+//@   requires m != nil
+//@   modifies nothing
+//@   ensures id == m.ID
+//@   ensures [C02,C03:flags] uint16(m.OpCode) < 16 && uint16(m.RCode) < 16 ==> ((bits & 0x8000) != 0) == m.Response && ((bits & 0x0400) != 0) == m.Authoritative
+//@        && ((bits & 0x0200) != 0) == m.Truncated && ((bits & 0x0100) != 0) == m.RecursionDesired
+//@        && ((bits & 0x0080) != 0) == m.RecursionAvailable && ((bits & 0x0020) != 0) == m.AuthenticData
+//@        && ((bits & 0x0010) != 0) == m.CheckingDisabled && (bits & 0x0040) == 0
+//@   ensures [C02:roundtrip] uint16(m.OpCode) < 16 && uint16(m.RCode) < 16 ==> OpCode(bits>>11) & 0xF == m.OpCode && RCode(bits & 0xF) == m.RCode
+
+//@ func (m *Msg) Unpack(msg []byte) (err error)
+//@   props C01 C02
+//@   requires m != nil && len(m.Questions) == 0 && len(m.Answers) == 0 && len(m.Authorities) == 0 && len(m.Additionals) == 0 && distinctSecs(m)
+//@   modifies m.Header, m.Questions, m.Answers, m.Authorities, m.Additionals, obj(m.Questions), obj(m.Answers), obj(m.Authorities), obj(m.Additionals)
+//@   ensures [C02:header] err == nil ==> len(msg) >= 12 && m.ID == BE16(msg, 0) && m.Response == ((BE16(msg, 2) & 0x8000) != 0)
+//@             && m.Truncated == ((BE16(msg, 2) & 0x0200) != 0) && m.RecursionDesired == ((BE16(msg, 2) & 0x0100) != 0)
+//@             && m.RCode == RCode(BE16(msg, 2) & 0xF) && m.OpCode == OpCode(BE16(msg, 2) >> 11) & 0xF
+//@   ensures wfMsg(m)
+//@   ensures [C02:counts] err == nil ==> len(m.Questions) == int(BE16(msg, 4)) && len(m.Answers) == int(BE16(msg, 6))
+//@             && len(m.Authorities) == int(BE16(msg, 8)) && len(m.Additionals) == int(BE16(msg, 10))
+//@   loop 1:
+//@     modifies m.Questions, obj(m.Questions)
+//@     invariant 12 <= off && off <= len(msg) && 0 <= i && i <= int(h.questions) && len(m.Questions) == i
+//@     invariant sameObj(m.Questions, old(m.Questions)) || loopFresh(m.Questions)
+//@     invariant forall(k, 0, len(m.Questions), m.Questions[k] != nil)
+//@     decreases int(h.questions) - i
+//@   loop 2:
+//@     modifies m.Answers, obj(m.Answers)
+//@     invariant 12 <= off && off <= len(msg) && 0 <= i_2 && i_2 <= int(h.answers) && len(m.Answers) == i_2
+//@     invariant sameObj(m.Answers, old(m.Answers)) || loopFresh(m.Answers)
+//@     invariant forall(k, 0, len(m.Questions), m.Questions[k] != nil) && wfRecs(m.Answers)
+//@     decreases int(h.answers) - i_2
+//@   loop 3:
+//@     modifies m.Authorities, obj(m.Authorities)
+//@     invariant 12 <= off && off <= len(msg) && 0 <= i_3 && i_3 <= int(h.authorities) && len(m.Authorities) == i_3
+//@     invariant sameObj(m.Authorities, old(m.Authorities)) || loopFresh(m.Authorities)
+//@     invariant forall(k, 0, len(m.Questions), m.Questions[k] != nil) && wfRecs(m.Answers) && wfRecs(m.Authorities)
+//@     decreases int(h.authorities) - i_3
+//@   loop 4:
+//@     modifies m.Additionals, obj(m.Additionals)
+//@     invariant 12 <= off && off <= len(msg) && 0 <= i_4 && i_4 <= int(h.additionals) && len(m.Additionals) == i_4
+//@     invariant sameObj(m.Additionals, old(m.Additionals)) || loopFresh(m.Additionals)
+//@     invariant wfMsg(m)
+//@     decreases int(h.additionals) - i_4
+
+//@ func ReleaseMsg(m *Msg)
+//@   props C01 C20
+//@   requires m != nil && forall(k, 0, len(m.Questions), m.Questions[k] != nil) && okRecs(m.Answers) && okRecs(m.Authorities) && okRecs(m.Additionals)
+//@   modifies *
+//@   loop 1:
+//@     invariant forall(k, 0, len(m.Questions), m.Questions[k] != nil) && okRecs(m.Answers) && okRecs(m.Authorities) && okRecs(m.Additionals)
+//@   loop 2:
+//@     invariant okRecs(m.Answers) && okRecs(m.Authorities) && okRecs(m.Additionals)
+//@   loop 3:
+//@     invariant okRecs(rs) && okRecs(m.Answers) && okRecs(m.Authorities) && okRecs(m.Additionals)
+
+//@ func UnpackMsg(msg []byte) (m *Msg, err error)
+//@   props C01 C02 C20
+//@   modifies *
+//@   ensures err == nil ==> m != nil && fresh(m) && wfMsg(m)
+//@   ensures err != nil ==> m == nil
+//@   ensures [C02:header] err == nil ==> len(msg) >= 12 && m.ID == BE16(msg, 0) && m.Response == ((BE16(msg, 2) & 0x8000) != 0)
+//@             && m.Truncated == ((BE16(msg, 2) & 0x0200) != 0) && m.RecursionDesired == ((BE16(msg, 2) & 0x0100) != 0)
+//@             && m.RCode == RCode(BE16(msg, 2) & 0xF) && m.OpCode == OpCode(BE16(msg, 2) >> 11) & 0xF
+//@   ensures [C02:counts] err == nil ==> len(m.Questions) == int(BE16(msg, 4)) && len(m.Answers) == int(BE16(msg, 6))
+//@             && len(m.Authorities) == int(BE16(msg, 8)) && len(m.Additionals) == int(BE16(msg, 10))
